@@ -74,7 +74,7 @@ CHECKS = {
    category="model_checking",
    text="SLOT-ACCOUNTING KERNEL ONLY. For allocate_binary_data, retain, release and process_pending_free: from EVERY pre-state over 3 slots satisfying the representation invariant (freed => count 0; the reuse pool is duplicate-free and equals the freed set; the queue holds valid indices) and every argument, the invariant is re-established and: no slot with a positive count is reclaimed or handed out, a count reaching 0 is queued, exactly the queued slots still at 0 are reclaimed, no double free, the size limit is enforced. One inductive step covers call histories of any length for this kernel. NOT decided: that the interpreter, select state, REPL compaction and workers call retain/release the right number of times - a leak or premature free caused by mis-wired call sites (e.g. the select receiving slot) is not detected by this check.",
    design_ref="DESIGN.md §4 C06",
-   note="Trusted: Kani 0.68/CBMC 6.11; stand-ins Value/BinaryData/Error in kani/c06world; the invariant as written in the harness. Bounds: 3 slots, queue of 0..3 entries, one level of tuple nesting.",
+   note="Trusted: Kani 0.68/CBMC 6.11; stand-ins Value/BinaryData/Error in kani/c06world; the invariant as written in the harness. Bounds: 3 slots, queue of 0..1 entries, bare heap binaries (the instances with 2-3 queue entries and with a value nested in a tuple exhaust CBMC and run only with C06_HEAVY=1; evidence lists them as not_decided).",
  ),
  "C10": dict(
    engine="E1 SQVM (z3), equivalence of two bytecodes",
@@ -83,6 +83,22 @@ CHECKS = {
    text="FOR PROGRAMS WITH INPUTS ONLY. A closed program leaves nothing to quantify over; a program that evaluates to a function does. For each function-valued corpus program (generated small functions whose siblings differ only in constants, std exports with ground parameters, generated generic call sites) the real packaging steps are applied and the function value each variant evaluates to is shown equal to the original FOR EVERY ARGUMENT of the declared parameter type (all constructor shapes to depth 3, unbounded integers): for every pair of compatible paths the outcomes are equal. The merge variant merges the program after a sibling of identical structure and a seeded other program, which is what exposes index-remapping mistakes. Closed programs, the `%m` import path and longer merge histories are not covered.",
    design_ref="DESIGN.md §4 C10",
    note="Trusted: SQVM semantics/builtin models (validated against the real executor), z3; values of different id spaces are compared by tuple name and field labels; function-valued results by arity only.",
+ ),
+ "C08": dict(
+   engine="E1-style: real compatibility tables dumped by qvdump (as compiled / real tree_shake / real Environment merge) + z3 over a symbolic value tree (sqvm/typesem.py)",
+   technique="validation of the real run-time type-test tables (compute_type_compatibility, compute_param_compatibility) of every program variant against the set-theoretic meaning of the tested type: for every (tested type, tag) the solver searches the value space for a member the table rejects or a non-member it accepts; accepted-as-compiled must stay accepted after tree-shaking and merging; generated literals are also pushed through the real executor's type test (engine validation)",
+   category="translation_validation",
+   text="PER TABLE ENTRY, VALUES DECIDED BY THE SOLVER. For each corpus program (generated type families, partial-pattern function families, std, examples; thorough adds test-suite and spec sources) and each variant (as compiled, after the real tree_shake, merged into a real Environment after another program), for every type used by an IsType instruction or as a function parameter (receive filter) that is closed and first-order, and every tag (Integer, Binary, every tuple of the variant's table): accepted => some member has that tag and, for a closed tuple type, no value of it lies outside the tested type; a tuple type known to the table whose values all lie in the tested type (or that is one of its alternatives) => accepted; accepted as compiled => accepted in the other variants. Values to depth 3. Function/builtin/process/resource tags and types, open and generic types and longer merge histories are not covered; which tags can actually reach a given test (flow) is not analysed - the claim is about the tables.",
+   design_ref="DESIGN.md §4 C08/C09",
+   note="Trusted: sqvm/typesem.py, z3; the assumption that a value with tuple tag k has fields inhabiting k's declared field types (C01's subject).",
+ ),
+ "C09": dict(
+   engine="E1-style: real type relation run by qvdump on real type tables + z3 over a symbolic value tree (sqvm/typesem.py)",
+   technique="validation of every verdict of the real is_compatible / types_overlap on the real type tables of compiled programs: the set-theoretic meaning of each type is encoded as an SMT formula over a symbolic bounded value tree and the solver searches for a value on the wrong side of the verdict; models are re-judged by a second plain evaluator",
+   category="translation_validation",
+   text="PER VERDICT, VALUES DECIDED BY THE SOLVER. The quantifier over types is instantiated by the real type tables of a program corpus (generated type families: all pairs of 36 type expressions incl. partial, recursive and optional types; std; examples; thorough adds test-suite and spec sources) - up to 14 (quick) / 28 (thorough) distinct closed first-order types per program, all ordered pairs. For each pair the real functions are run; then, over EVERY value tree to depth 3: assignable => no value in A outside B; not overlapping => no common value; plus reflexivity and transitivity of the real relation over every triple. Function/process/resource/generic types, unguarded cycles and narrowing's intersect/complement (private to the compiler crate) are not covered; a type pair no corpus table contains is not checked.",
+   design_ref="DESIGN.md §4 C08/C09",
+   note="Trusted: sqvm/typesem.py (the meaning of types: partial types closed-world over the program's tuples; under/over approximation at the depth limit so that every reported value is real), z3.",
  ),
 }
 
